@@ -14,6 +14,7 @@ import (
 
 	"github.com/scionproto/scion/pkg/addr"
 	"github.com/scionproto/scion/pkg/slayers"
+	"github.com/scionproto/scion/pkg/slayers/path"
 	"github.com/scionproto/scion/pkg/slayers/path/empty"
 	"github.com/scionproto/scion/pkg/slayers/path/epic"
 	"github.com/scionproto/scion/pkg/slayers/path/onehop"
@@ -461,6 +462,85 @@ var (
 	recycledInit bool
 )
 
+var (
+	reusedMu    sync.Mutex
+	reusedPaths = map[string]path.Path{"decoded": &scion.Decoded{}, "raw": &scion.Raw{}, "epic": &epic.Path{}, "onehop": &onehop.Path{}}
+)
+
+// primerPath returns the bytes of a maximal (3 segments, 64 hop fields) or minimal (1 segment, 1 hop
+// field) path of the given kind, filled with a non-zero pattern.
+func primerPath(kind string, long bool) []byte {
+	meta, nInf, nHop := uint32(1<<12), 1, 1
+	if long {
+		meta, nInf, nHop = 22<<12|21<<6|21, 3, 64
+	}
+	sp := make([]byte, 4+8*nInf+12*nHop)
+	for i := range sp {
+		sp[i] = 0xa5
+	}
+	binary.BigEndian.PutUint32(sp, meta)
+	switch kind {
+	case "epic":
+		return append(bytes.Repeat([]byte{0x5a}, 16), sp...)
+	case "onehop":
+		return bytes.Repeat([]byte{0xa5}, 32)
+	}
+	return sp
+}
+
+func checkReusedPathObjects(pt path.Type, pb []byte, stats func(string)) (msg string) {
+	reusedMu.Lock()
+	defer reusedMu.Unlock()
+	defer func() {
+		if r := recover(); r != nil {
+			msg = fmt.Sprintf("panic while decoding a path into a reused object: %v", r)
+		}
+	}()
+	var names []string
+	fresh := map[string]path.Path{}
+	switch pt {
+	case scion.PathType:
+		names = []string{"decoded", "raw"}
+		fresh["decoded"], fresh["raw"] = &scion.Decoded{}, &scion.Raw{}
+	case epic.PathType:
+		names = []string{"epic"}
+		fresh["epic"] = &epic.Path{}
+	case onehop.PathType:
+		names = []string{"onehop"}
+		fresh["onehop"] = &onehop.Path{}
+	}
+	for _, n := range names {
+		f, r := fresh[n], reusedPaths[n]
+		// what the reused object held before is a function of the input (so that a failing input
+		// reproduces on its own): the longest possible path or the shortest one
+		primer := primerPath(n, len(pb)%2 == 0 || len(pb) < 100)
+		if perr := r.DecodeFromBytes(primer); perr != nil {
+			return fmt.Sprintf("harness: primer path for %s does not decode: %v", n, perr)
+		}
+		ferr := f.DecodeFromBytes(append([]byte{}, pb...))
+		rerr := r.DecodeFromBytes(append([]byte{}, pb...))
+		if (ferr == nil) != (rerr == nil) {
+			return fmt.Sprintf("path bytes %x: a fresh %s path object decodes with error %v, one that was used before with %v", pb, n, ferr, rerr)
+		}
+		if ferr != nil {
+			continue
+		}
+		if f.Len() != r.Len() {
+			return fmt.Sprintf("path bytes %x: a fresh %s path object has length %d, one that was used before %d", pb, n, f.Len(), r.Len())
+		}
+		fo, ro := make([]byte, f.Len()), make([]byte, r.Len())
+		fe, re := f.SerializeTo(fo), r.SerializeTo(ro)
+		if (fe == nil) != (re == nil) || !bytes.Equal(fo, ro) {
+			return fmt.Sprintf("path bytes %x: a fresh %s path object re-serializes to %x (%v), one that was used before to %x (%v)", pb, n, fo, fe, ro, re)
+		}
+		if d, ok := r.(*scion.Decoded); ok && (len(d.InfoFields) != d.NumINF || len(d.HopFields) != d.NumHops) {
+			return fmt.Sprintf("path bytes %x: decoded path object used before holds %d info and %d hop fields, the path has %d and %d", pb, len(d.InfoFields), len(d.HopFields), d.NumINF, d.NumHops)
+		}
+		stats("path_object_reused")
+	}
+	return ""
+}
+
 func checkBytesRoundTrip(raw []byte, stats func(string)) (msg string) {
 	defer func() {
 		if r := recover(); r != nil {
@@ -506,6 +586,13 @@ func checkBytesRoundTrip(raw []byte, stats func(string)) (msg string) {
 					return fmt.Sprintf("recycling layer re-serializes an accepted header to %x, input %x", rout, raw[:hl])
 				}
 			}
+		}
+	}
+	// long-lived path objects that are decoded into again and again (the decoded form is what path
+	// manipulating code keeps around): same verdict and same bytes as a fresh object
+	if err == nil {
+		if m := checkReusedPathObjects(s.PathType, raw[slayers.CmnHdrLen+s.AddrHdrLen():int(s.HdrLen)*4], stats); m != "" {
+			return m
 		}
 	}
 	if len(raw) >= 12 {
